@@ -1,6 +1,8 @@
 package main
 
 import (
+	"go/types"
+	"go/token"
 	"encoding/json"
 	"golang.org/x/tools/go/ssa"
 	"fmt"
@@ -89,6 +91,8 @@ func main() {
 		os.Exit(runDump(os.Args[2:]))
 	case "list":
 		os.Exit(runList())
+	case "sweeplist":
+		os.Exit(runSweepList())
 	case "replay":
 		os.Exit(runReplay(os.Args[2]))
 	}
@@ -526,6 +530,68 @@ func runReplay(path string) int {
 			out, _ := runOverlayTest(rep["package_dir"].(string), src)
 			fmt.Println(out)
 		}
+	}
+	return 0
+}
+
+// runSweepList prints the functions of package engine that are not under contract and contain an instruction of a
+// panic class that needs no invariant to be judged locally: a type assertion without comma-ok, a shift, an integer
+// division. (Input for the generated no-panic sweep contracts.)
+func runSweepList() int {
+	P, err := loadAll()
+	if err != nil {
+		fmt.Println("load error:", err)
+		return 1
+	}
+	var keys []string
+	for _, fn := range P.allFuncs {
+		if fn.Pkg == nil && fn.Parent() == nil {
+			continue
+		}
+		root := fn
+		for root.Parent() != nil {
+			root = root.Parent()
+		}
+		if root.Pkg == nil || root.Pkg.Pkg.Path() != enginePath || fn.Synthetic != "" {
+			continue
+		}
+		key := fnKey(fn)
+		if _, has := P.Funcs[key]; has {
+			continue
+		}
+		classes := map[string]bool{}
+		for _, b := range fn.Blocks {
+			for _, in := range b.Instrs {
+				switch x := in.(type) {
+				case *ssa.TypeAssert:
+					if !x.CommaOk {
+						classes["tassert"] = true
+					}
+				case *ssa.BinOp:
+					if b, ok := x.X.Type().Underlying().(*types.Basic); ok && b.Info()&types.IsInteger != 0 {
+						switch x.Op {
+						case token.QUO, token.REM:
+							classes["div0"] = true
+						case token.SHL, token.SHR:
+							classes["shift"] = true
+						}
+					}
+				}
+			}
+		}
+		if len(classes) == 0 {
+			continue
+		}
+		var cs []string
+		for c := range classes {
+			cs = append(cs, c)
+		}
+		sort.Strings(cs)
+		keys = append(keys, strings.TrimPrefix(key, "engine.")+"\t"+strings.Join(cs, " "))
+	}
+	sort.Strings(keys)
+	for _, k := range keys {
+		fmt.Println(k)
 	}
 	return 0
 }
